@@ -111,7 +111,9 @@ CHECKS = {
              'reach the printed move (R2, abstract interpretation of the answer field along go->iter_search with the '
              'stop flag unknown at every read), every use of a transposition-table move other than an equality '
              'comparison is behind std::find(begin,end,move)!=end over the node\'s own list (R3), PV moves originate '
-             'from that list (R4), ordering only swaps list elements (R5), no non-returning construct in the search '
+             'from that list with the index shown inside [0, end-begin), the PV spliced behind a move is read from the frame every '
+             'child search was given and the answer from the frame the root search wrote (R4), ordering only swaps list '
+             'elements (R5), no non-returning construct in the search '
              'thread (R6). Legality of the generated list itself is C01; timing is not decided.',
         design_ref='DESIGN.md §3 C05',
         note=TB + 'A-ROOT: root move list non-empty (the property\'s precondition); table scores may steer the choice among legal moves.',
@@ -131,7 +133,10 @@ CHECKS = {
         text='Partial (necessary conditions): the -VALUE_INFINITE initialiser of a max-accumulation loop is never '
              'returned (path-sensitive value analysis over search/quiescence), the UCI formatter converts plies to '
              'moves, both searches adjust mate distances alike after undo_move, the no-legal-move test precedes '
-             'quiescence and the table probe, pruning exempts checks, and the score bands satisfy the compiled '
+             'quiescence and the table probe, pruning exempts checks, the value searched after a null move only reaches '
+             'comparisons, before any move is tried a node returns the draw value only when it is a drawn non-root node '
+             '(decision table over stop, limits, is_draw, is_repeated, root, depth 0), a move\'s line becomes the PV only when '
+             'its value exceeds a running maximum raised to it and is not overwritten afterwards, and the score bands satisfy the compiled '
              'static_assert witness. Truth/minimality of an announced mate is a game-tree fact and is not decided.',
         design_ref='DESIGN.md §3 C08',
         note=TB + 'A-LEN: generated list length >= 0; child results are never +-VALUE_INFINITE (established inductively by R1).',
@@ -141,8 +146,10 @@ CHECKS = {
         text='Partial: every definition of the depth limit is clamped to MAX_DEPTH (R1); the iteration counter is '
              'reset, incremented exactly once per cycle, printed unmodified and tested against the limit on every '
              'cycle (R2); the root list is exactly searchmoves when given, written only by the constructor, and the '
-             'ply-0 node iterates only it (R3); each recursive call carries a decreasing measure behind a cut (R4). '
-             'Wall-clock adherence is not decided.',
+             'ply-0 node iterates only it (R3); each recursive call carries a decreasing measure behind a cut (R4); '
+             'check_limits looks at the budgets after finitely many visits (every early return sits behind a decrement of a '
+             'counter only it writes and a lower-bound test) and an exceeded node or time budget returns true or raises the '
+             'stop flag (R5). Wall-clock adherence is not decided.',
         design_ref='DESIGN.md §3 C09',
         note=TB + 'root PV head being an element of the root list relies on C05.R3/R4.',
         technique='static: reaching-definition/interval clamp rule, loop-cycle and dominance rules, recursion measure rule'),
@@ -189,7 +196,7 @@ CHECKS = {
              'discharged by a whole-program interval analysis (parameter-interval fixpoint, widening/narrowing, '
              'branch refinement incl. NO_SQUARE tests, non-zero-guarded bit scans, out-parameters, context-sensitive '
              'callee evaluation) or by one of a closed list of named structural rules (piece lists, lockstep counters, '
-             'list windows, bitbase index, e.p. geometry) under named chess assumptions; plus search-stack depth, PV '
+             'list windows, std::find windows over one row, bitbase index, e.p. geometry) under named chess assumptions; plus search-stack depth, PV '
              'length, move-list rows, pin list, list capacity at every generate_moves call, depth-indexed array (via '
              'C09), definite assignment of uninitialised scalar locals, and scalar members of engine classes initialised by '
              'every constructor that engine code invokes (B12); std::vector subscripts and the history window are '
